@@ -1,4 +1,6 @@
 import PRV.Model.Manager
+import PRV.Model.ManagerStop
+import PRV.Gen.C16
 /-
 C16 — The node watches exactly its own contracts.
 Theorems about `Model/Manager.lean`, for every chain state and every event.
@@ -166,5 +168,89 @@ theorem repurchase_before_exit_is_lost :
 theorem repurchase_after_exit_is_watched :
     let s := run raceStart [.start, .purchased "c1" "o2" "me", .closed "c1", .ctlExit "c1", .purchased "c1" "o2" "me"]
     "c1" ∈ shouldWatch s ∧ "c1" ∈ s.watched := by decide
+
+
+/-! ### a manager that stops, stops its contracts: how `Run` ends (regenerated) -/
+
+section stop
+open PRV.Model.ManagerStop
+
+/-- the contracts run under a context `Run` derives for them, and the deferred function cancels it before it waits -/
+theorem source_run_stops_before_waiting :
+    PRV.Gen.C16.runFirstStmt = "ctx, cancel := context.WithCancel(ctx)" ∧
+    PRV.Gen.C16.runDeferCalls.map toStep = [.cancel, .other, .wait, .other] ∧
+    PRV.Gen.C16.addContractCtx = ["Run:ctx", "handleContractCreated:ctx", "handleContractPurchased:ctx"] := by decide
+
+/-- **`Run` returns, whatever made its body return and however many controllers are running** — so a manager that was
+refused a call hands its error to the node's supervisor instead of hanging with nobody watching the clone factory -/
+theorem run_returns_on_every_exit (s : PRV.Model.ManagerStop.St) :
+    ∃ s', runDefer (PRV.Gen.C16.runDeferCalls.map toStep) s = some s' ∧ s'.running = 0 := by
+  rw [source_run_stops_before_waiting.2.1]
+  simp [runDefer, settle]
+
+/-- waiting without stopping (the deferred function as it was before `8853e91`) never returns while a controller runs and
+the node itself is not shutting down -/
+theorem waiting_without_stopping_hangs (s : PRV.Model.ManagerStop.St) (hp : s.parentLive = true) (hc : s.ctxLive = true) (hr : 0 < s.running) :
+    runDefer [.other, .wait, .other] s = none := by
+  simp [runDefer, settle, hp, hc]; omega
+
+/-- in general: a deferred function returns from every state iff it cancels before it first waits (or never waits) -/
+theorem returns_iff_cancel_first (ds : List DStep) :
+    (∀ s, (runDefer ds s).isSome) ↔ (∀ pre post, ds = pre ++ .wait :: post → .wait ∈ pre ∨ .cancel ∈ pre) := by
+  constructor
+  · intro h pre post hd
+    by_cases hw : DStep.wait ∈ pre
+    · exact Or.inl hw
+    by_cases hc : DStep.cancel ∈ pre
+    · exact Or.inr hc
+    exfalso
+    -- a state with a running controller and live contexts passes `pre` unchanged and blocks at the wait
+    have key : ∀ (pre : List DStep), .wait ∉ pre → .cancel ∉ pre → ∀ rest (s : PRV.Model.ManagerStop.St),
+        runDefer (pre ++ rest) s = runDefer rest s := by
+      intro pre
+      induction pre with
+      | nil => intros; rfl
+      | cons d r ih =>
+        intro hw hc rest s
+        cases d with
+        | cancel => simp at hc
+        | wait => simp at hw
+        | other =>
+          simp only [List.cons_append, runDefer]
+          exact ih (fun x => hw (List.mem_cons_of_mem _ x)) (fun x => hc (List.mem_cons_of_mem _ x)) rest s
+    have := h ({ running := 1 } : PRV.Model.ManagerStop.St)
+    rw [hd, key pre hw hc] at this
+    simp [runDefer, settle] at this
+  · intro h
+    -- after a cancel every wait passes; before any wait nothing blocks
+    have after : ∀ (ds : List DStep) (s : PRV.Model.ManagerStop.St), s.ctxLive = false → (runDefer ds s).isSome := by
+      intro ds
+      induction ds with
+      | nil => intros; rfl
+      | cons d r ih =>
+        intro s hs
+        cases d with
+        | cancel => simp only [runDefer]; apply ih; simp [settle]
+        | wait =>
+          have h0 : (settle s).running = 0 := by simp [settle, hs]
+          simp only [runDefer, h0, if_true]; apply ih; simp [settle, hs]
+        | other => simp only [runDefer]; exact ih s hs
+    induction ds with
+    | nil => intro s; rfl
+    | cons d r ih =>
+      intro s
+      cases d with
+      | cancel => simp only [runDefer]; apply after; simp [settle]
+      | wait =>
+        have := h [] r rfl
+        simp at this
+      | other =>
+        simp only [runDefer]
+        apply ih
+        intro pre post hd
+        have := h (.other :: pre) post (by simp [hd])
+        simpa using this
+
+end stop
 
 end PRV.Props.C16
